@@ -27,6 +27,7 @@ import (
 	quic "github.com/refraction-networking/uquic"
 	"github.com/refraction-networking/uquic/internal/verifharness/e2e"
 	"github.com/refraction-networking/uquic/internal/verifharness/vh"
+	"github.com/refraction-networking/uquic/qlog"
 )
 
 var theT *testing.T
@@ -34,6 +35,22 @@ var theT *testing.T
 type runner struct{}
 
 func (rn *runner) GenOp(r *vh.Rand, i int) string {
+	if r.Chance(40) { // a client that probes one or two more paths (second / third Transport), possibly migrates, possibly back
+		closer := "c"
+		if r.Bool() {
+			closer = "s"
+		}
+		if r.Chance(35) {
+			// the peer retires one of our connection IDs (it abandons a probed path when we migrate), then a further path is
+			// added, then the peer retires another one, then the connection closes while both still wait for their expiry
+			return fmt.Sprintf("mig ccid=%d scid=%d closer=%s rtt=%d paths=2 switch=2 back=0 gap=0 wait=%d plan=r2",
+				[]int{4, 8, 12}[r.Intn(3)], []int{4, 8, 16}[r.Intn(3)], closer, r.Range(4, 70), r.Range(5000, 9000))
+		}
+		paths := 1 + r.Intn(2)
+		return fmt.Sprintf("mig ccid=%d scid=%d closer=%s rtt=%d paths=%d switch=%d back=%d gap=%d wait=%d",
+			[]int{4, 4, 8, 12, 20}[r.Intn(5)], []int{4, 8, 16}[r.Intn(3)], closer, r.Range(2, 80), paths, r.Intn(paths+1), r.Intn(2),
+			r.Range(0, 400), r.Range(5000, 9000))
+	}
 	ccid := []int{0, 4, 4, 8, 12, 20}[r.Intn(6)]
 	scid := []int{4, 4, 8, 16}[r.Intn(4)]
 	closer := "c"
@@ -83,6 +100,9 @@ func longHeader(b []byte) (typ int, dcid, scid []byte, ok bool) {
 	return int(b[0]&0x30) >> 4, dcid, b[7+l : 7+l+sl], true
 }
 
+// errWord: an error as one word of the result line
+func errWord(err error) string { return strings.ReplaceAll(e2e.ErrString(err), " ", "_") }
+
 func contains(l [][]byte, x []byte) bool {
 	for _, y := range l {
 		if bytes.Equal(x, y) {
@@ -93,6 +113,9 @@ func contains(l [][]byte, x []byte) bool {
 }
 
 func (rn *runner) Exec(op string) (res string) {
+	if strings.HasPrefix(op, "mig") {
+		return rn.execMig(op)
+	}
 	if !strings.HasPrefix(op, "scn") {
 		return "skip"
 	}
@@ -216,6 +239,295 @@ func (rn *runner) Exec(op string) (res string) {
 	if !ok && res == "hs=bubble-failed" {
 		res = "hs=bubble-failed"
 	}
+	return res
+}
+
+// execMig: one connection of a client that uses several transports (Conn.AddPath / Path.Probe / Path.Switch).
+//
+// op:     mig ccid=<len> scid=<len> closer=<c|s> rtt=<ms> paths=<1|2> switch=<0..paths> back=<0|1> gap=<ms> wait=<ms>
+// result: hs=ok probe=<ok|…> sw=<ok|-|…> mid=<ok|…> end_srv=<routes>/<tokens> end_cli=<routes>/<tokens> end_p1=… end_p2=…
+//
+// mid: after the probes (and the migration) every extra transport that was probed routes at least one connection ID
+// to the connection, and only connection IDs that the first transport routes too.
+func (rn *runner) execMig(op string) (res string) {
+	ccid := int(field(op, "ccid", 4))
+	scid := int(field(op, "scid", 4))
+	closer := sfield(op, "closer", "c")
+	rtt := time.Duration(field(op, "rtt", 20)) * time.Millisecond
+	paths := int(field(op, "paths", 1))
+	sw := int(field(op, "switch", 0))
+	back := field(op, "back", 0) == 1
+	gap := time.Duration(field(op, "gap", 100)) * time.Millisecond
+	wait := time.Duration(field(op, "wait", 6000)) * time.Millisecond
+	plan := sfield(op, "plan", "")
+	if paths < 1 || paths > 3 || sw > paths || ccid == 0 || (plan == "r2" && paths != 2) || (plan != "" && plan != "r2") {
+		return "skip"
+	}
+	res = "hs=bubble-failed"
+	theT.Run("mig", func(t *testing.T) {
+		synctest.Test(t, func(t *testing.T) {
+			env, err := e2e.Start(e2e.Setup{RTT: rtt, ExtraClientEndpoints: paths, Qlog: plan == "r2",
+				ServerTransport: func(tr *quic.Transport) { tr.ConnectionIDLength = scid },
+				ClientTransport: func(tr *quic.Transport) { tr.ConnectionIDLength = ccid },
+			})
+			if err != nil {
+				res = "hs=start:" + errWord(err)
+				return
+			}
+			defer env.Close()
+			var extra []*quic.Transport
+			for _, pc := range env.ExtraPC {
+				tr := &quic.Transport{Conn: pc, ConnectionIDLength: ccid}
+				extra = append(extra, tr)
+				defer tr.Close()
+			}
+			srvConn := make(chan *quic.Conn, 1)
+			go func() {
+				c, err := env.Listener.Accept(context.Background())
+				if err != nil {
+					close(srvConn)
+					return
+				}
+				srvConn <- c
+				for {
+					s, err := c.AcceptStream(context.Background())
+					if err != nil {
+						return
+					}
+					go func() { io.Copy(io.Discard, s) }()
+				}
+			}()
+			ctx, cancel := context.WithTimeout(context.Background(), 30*time.Second)
+			defer cancel()
+			c, err := env.Dial(ctx)
+			if err != nil {
+				res = "hs=dial:" + errWord(err)
+				return
+			}
+			sc, okc := <-srvConn
+			if !okc {
+				res = "hs=accept-failed"
+				return
+			}
+			var pingStream *quic.Stream
+			ping := func() { // a little traffic on one long-lived stream (so that both run loops come round)
+				if pingStream == nil {
+					s, err := c.OpenStreamSync(ctx)
+					if err != nil {
+						return
+					}
+					pingStream = s
+				}
+				pingStream.Write([]byte("ping"))
+			}
+			time.Sleep(500*time.Millisecond + gap)
+			ping()
+			probe, swres := "ok", "-"
+			var ps []*quic.Path
+			var validated []int // indices of the extra transports whose path was validated
+			// RETIRE_CONNECTION_ID frames the client has received so far (its qlog)
+			retired := func() int {
+				n := 0
+				for _, ev := range env.ClientLog.Snapshot() {
+					if pr, ok := ev.(qlog.PacketReceived); ok {
+						for _, f := range pr.Frames {
+							if _, ok := f.Frame.(*qlog.RetireConnectionIDFrame); ok {
+								n++
+							}
+						}
+					}
+				}
+				return n
+			}
+			waitRetired := func(n int, atMost time.Duration, pings bool) bool {
+				rounds := int(atMost / (rtt/4 + time.Millisecond))
+				for i := 0; i < rounds; i++ {
+					if retired() >= n {
+						return true
+					}
+					if pings && i%4 == 0 {
+						ping()
+					}
+					time.Sleep(rtt/4 + time.Millisecond)
+				}
+				return retired() >= n
+			}
+			start := time.Now()
+			dbg := func(what string) {
+				if os.Getenv("VH_DEBUG") == "" {
+					return
+				}
+				a, _, _ := quic.VerifTransportRouting(env.ClientTr)
+				if what == "retire-1" {
+					for _, ev := range env.ClientLog.Snapshot() {
+						switch x := ev.(type) {
+						case qlog.PacketReceived:
+							for _, f := range x.Frames {
+								switch fr := f.Frame.(type) {
+								case *qlog.RetireConnectionIDFrame:
+									fmt.Fprintf(os.Stderr, "   rcvd pn=%d RETIRE %d\n", x.Header.PacketNumber, fr.SequenceNumber)
+								case *qlog.NewConnectionIDFrame:
+									fmt.Fprintf(os.Stderr, "   rcvd pn=%d NEW %d rpt=%d\n", x.Header.PacketNumber, fr.SequenceNumber, fr.RetirePriorTo)
+								}
+							}
+						case qlog.PacketSent:
+							for _, f := range x.Frames {
+								switch fr := f.Frame.(type) {
+								case *qlog.RetireConnectionIDFrame:
+									fmt.Fprintf(os.Stderr, "   sent pn=%d RETIRE %d\n", x.Header.PacketNumber, fr.SequenceNumber)
+								case *qlog.NewConnectionIDFrame:
+									fmt.Fprintf(os.Stderr, "   sent pn=%d NEW %d\n", x.Header.PacketNumber, fr.SequenceNumber)
+								case *qlog.PathChallengeFrame:
+									fmt.Fprintf(os.Stderr, "   sent pn=%d PATH_CHALLENGE\n", x.Header.PacketNumber)
+								}
+							}
+						}
+					}
+				}
+				fmt.Fprintf(os.Stderr, "%v %s: retired=%d cli=%d", time.Since(start), what, retired(), len(a))
+				for i := range extra {
+					b, _, _ := quic.VerifTransportRouting(extra[i])
+					fmt.Fprintf(os.Stderr, " p%d=%d", i+1, len(b))
+				}
+				fmt.Fprintln(os.Stderr)
+			}
+			probeOne := func(i int) bool {
+				p, err := c.AddPath(extra[i])
+				if err != nil {
+					probe = "addpath:" + errWord(err)
+					return false
+				}
+				pctx, pcancel := context.WithTimeout(ctx, 5*time.Second)
+				err = p.Probe(pctx)
+				pcancel()
+				if os.Getenv("VH_DEBUG") != "" {
+					fmt.Fprintf(os.Stderr, "probe %d: %v retired=%d\n", i, err, retired())
+					for _, d := range env.Net.Log {
+						if d.At > 500*time.Millisecond {
+							fmt.Fprintf(os.Stderr, "  %v %s -> %s len=%d %s first=%x\n", d.At, d.From, d.To, len(d.Data), d.Fate, d.Data[:min(12, len(d.Data))])
+						}
+					}
+				}
+				if err != nil {
+					probe = fmt.Sprintf("probe%d:", i+1) + errWord(err)
+					return false
+				}
+				ps = append(ps, p)
+				validated = append(validated, i)
+				return true
+			}
+			if plan == "r2" {
+				paths = 0 // the loop below is not used
+				sw = 0
+				swres = "ok"
+				before := retired()
+				// 1. a probe of the second path whose answers never arrive: the server allocates one of our connection IDs for
+				//    that path, declares its PATH_CHALLENGE lost after a second and retires the ID (first RETIRE_CONNECTION_ID)
+				env.Net.SetDropTo(e2e.ExtraClientAddr(0), true)
+				p1, err := c.AddPath(extra[0])
+				if err != nil {
+					probe = "addpath:" + errWord(err)
+				} else {
+					pctx, pcancel := context.WithTimeout(ctx, 3*time.Second)
+					defer pcancel()
+					go p1.Probe(pctx)
+					if !waitRetired(before+1, 1600*time.Millisecond, true) {
+						swres = "no-retire-1"
+					} else {
+						dbg("retire-1")
+						// 2. the dead path is probed again (the server allocates another of our IDs for it) and, at the same time,
+						//    a third transport is added: it never hears of the ID just retired
+						go p1.Probe(pctx)
+						if probeOne(1) {
+							dbg("probed-2")
+							// 3. the client migrates to the third transport: the server abandons the dead path and retires its ID
+							//    (second RETIRE_CONNECTION_ID)
+							if err := ps[0].Switch(); err != nil {
+								swres = "switch:" + errWord(err)
+							} else if !waitRetired(before+2, 10*rtt+100*time.Millisecond, true) {
+								swres = "no-retire-2"
+							}
+						}
+						dbg("retire-2")
+					}
+				}
+			}
+			for i := 0; i < paths; i++ {
+				if !probeOne(i) {
+					break
+				}
+				time.Sleep(gap)
+			}
+			if probe == "ok" && sw > 0 {
+				swres = "ok"
+				if err := ps[sw-1].Switch(); err != nil {
+					swres = "switch:" + errWord(err)
+				}
+				time.Sleep(gap)
+				ping()
+				time.Sleep(4 * rtt)
+				if back && swres == "ok" { // the application returns to the first path: AddPath on a transport already registered
+					p, err := c.AddPath(env.ClientTr)
+					if err != nil {
+						swres = "back-addpath:" + errWord(err)
+					} else {
+						pctx, pcancel := context.WithTimeout(ctx, 5*time.Second)
+						if err := p.Probe(pctx); err != nil {
+							swres = "back-probe:" + errWord(err)
+						} else if err := p.Switch(); err != nil {
+							swres = "back-switch:" + errWord(err)
+						}
+						pcancel()
+					}
+					ping()
+				}
+			}
+			if plan != "r2" {
+				time.Sleep(gap + 4*rtt)
+			}
+			synctest.Wait()
+			mid := "ok"
+			first, _, _ := quic.VerifTransportRouting(env.ClientTr)
+			for _, i := range validated {
+				ids, kinds, _ := quic.VerifTransportRouting(extra[i])
+				if len(ids) == 0 {
+					mid = fmt.Sprintf("p%d-routes-nothing", i+1)
+				}
+				for j, id := range ids {
+					if kinds[j] != "conn" || !contains(first, id) {
+						mid = fmt.Sprintf("p%d-routes-%x-%s", i+1, id, kinds[j])
+					}
+				}
+			}
+			if os.Getenv("VH_DEBUG") != "" {
+				a, _, _ := quic.VerifTransportRouting(env.ClientTr)
+				fmt.Fprintf(os.Stderr, "before close: retired=%d cli=%x", retired(), a)
+				for i := range extra {
+					b, _, _ := quic.VerifTransportRouting(extra[i])
+					fmt.Fprintf(os.Stderr, " p%d=%x", i+1, b)
+				}
+				fmt.Fprintln(os.Stderr)
+			}
+			if closer == "s" {
+				sc.CloseWithError(7, "bye")
+			} else {
+				c.CloseWithError(7, "bye")
+			}
+			time.Sleep(wait)
+			synctest.Wait()
+			sids, _, stok := quic.VerifTransportRouting(env.ServerTr)
+			cids, _, ctok := quic.VerifTransportRouting(env.ClientTr)
+			res = fmt.Sprintf("hs=ok probe=%s sw=%s mid=%s end_srv=%d/%d end_cli=%d/%d", probe, swres, mid, len(sids), stok, len(cids), ctok)
+			for i := 0; i < 3; i++ {
+				if i < len(extra) {
+					ids, _, tok := quic.VerifTransportRouting(extra[i])
+					res += fmt.Sprintf(" end_p%d=%d/%d", i+1, len(ids), tok)
+				} else {
+					res += fmt.Sprintf(" end_p%d=0/0", i+1)
+				}
+			}
+		})
+	})
 	return res
 }
 
